@@ -5,6 +5,7 @@ package handler_test
 import (
 	"bytes"
 	"context"
+	"errors"
 	"fmt"
 	"net/http"
 	"net/http/httptest"
@@ -266,6 +267,9 @@ func TestVerifC04HTTP(t *testing.T) {
 		if class != "small" && (callerMode == "earlierDeadline" || callerMode == "cancelDuring") {
 			callerMode = "laterDeadline"
 		}
+		// the caller's context may end with a cause of its own (WithCancelCause / WithDeadlineCause): ctx.Err()
+		// is unchanged, so the timeout answer must be too
+		withCause := rapid.Bool().Draw(t, "callerCause")
 		ctx := context.Background()
 		var cancel context.CancelFunc = func() {}
 		var callerDeadline time.Time
@@ -275,9 +279,22 @@ func TestVerifC04HTTP(t *testing.T) {
 			ctx, cancel = context.WithDeadline(ctx, callerDeadline)
 		case "earlierDeadline":
 			callerDeadline = time.Now().Add(dt / 2)
-			ctx, cancel = context.WithDeadline(ctx, callerDeadline)
+			if withCause {
+				ctx, cancel = context.WithDeadlineCause(ctx, callerDeadline, errors.New("caller's own deadline cause"))
+			} else {
+				ctx, cancel = context.WithDeadline(ctx, callerDeadline)
+			}
 		case "cancelDuring":
-			ctx, cancel = context.WithCancel(ctx)
+			if withCause {
+				var cc context.CancelCauseFunc
+				ctx, cc = context.WithCancelCause(ctx)
+				cancel = func() { cc(errors.New("caller's own cancel cause")) }
+			} else {
+				ctx, cancel = context.WithCancel(ctx)
+			}
+		}
+		if withCause && (callerMode == "earlierDeadline" || callerMode == "cancelDuring") {
+			st.Class("caller-context-with-cause")
 		}
 		defer cancel()
 		obs := &c04obs{}
